@@ -697,45 +697,48 @@ func (ss *mergeHandlerSession) handleSendCountMsg(msg *mergeHandlerSessionSendMs
 
 type mergeHandlerSessionOKState struct {
 	size int
-	// map[eventID][chIdx]msg
-	s map[string][]*ServerOKMsg
+	// map[eventID][submission][chIdx]msg
+	// An event id can be submitted again while the replies to an earlier
+	// submission are still pending, so each id has a queue of reply slots.
+	s map[string][][]*ServerOKMsg
 }
 
 func newMergeHandlerSessionOKState(size int) *mergeHandlerSessionOKState {
 	return &mergeHandlerSessionOKState{
 		size: size,
-		s:    make(map[string][]*ServerOKMsg),
+		s:    make(map[string][][]*ServerOKMsg),
 	}
 }
 
 func (stat *mergeHandlerSessionOKState) TrySetEventID(eventID string) {
-	if len(stat.s[eventID]) > 0 {
-		return
-	}
-	stat.s[eventID] = make([]*ServerOKMsg, stat.size)
+	stat.s[eventID] = append(stat.s[eventID], make([]*ServerOKMsg, stat.size))
 }
 
 func (stat *mergeHandlerSessionOKState) SetMsg(chIdx int, msg *ServerOKMsg) {
-	msgs := stat.s[msg.EventID]
-	if len(msgs) == 0 {
-		return
+	// Each handler replies in request order: its reply belongs to the
+	// oldest submission it has not answered yet.
+	for _, msgs := range stat.s[msg.EventID] {
+		if msgs[chIdx] == nil {
+			msgs[chIdx] = msg
+			return
+		}
 	}
-	msgs[chIdx] = msg
 }
 
 func (stat *mergeHandlerSessionOKState) Ready(eventID string) bool {
-	msgs := stat.s[eventID]
-	if len(msgs) == 0 {
+	queue := stat.s[eventID]
+	if len(queue) == 0 {
 		return false
 	}
-	return !slices.Contains(msgs, nil)
+	return !slices.Contains(queue[0], nil)
 }
 
 func (stat *mergeHandlerSessionOKState) Msg(eventID string) *ServerOKMsg {
-	msgs := stat.s[eventID]
-	if len(msgs) == 0 {
+	queue := stat.s[eventID]
+	if len(queue) == 0 {
 		panicf("invalid eventID %s", eventID)
 	}
+	msgs := queue[0]
 
 	var oks, ngs []*ServerOKMsg
 	for _, msg := range msgs {
@@ -762,7 +765,12 @@ func joinServerOKMsgs(msgs ...*ServerOKMsg) *ServerOKMsg {
 }
 
 func (stat *mergeHandlerSessionOKState) ClearEventID(eventID string) {
-	delete(stat.s, eventID)
+	queue := stat.s[eventID]
+	if len(queue) <= 1 {
+		delete(stat.s, eventID)
+		return
+	}
+	stat.s[eventID] = queue[1:]
 }
 
 type mergeHandlerSessionReqState struct {
@@ -867,46 +875,54 @@ func (stat *mergeHandlerSessionReqState) ClearSubID(subID string) {
 
 type mergeHandlerSessionCountState struct {
 	size int
-	// map[subID][chIDx]msg
-	counts map[string][]*ServerCountMsg
+	// map[subID][request][chIDx]msg
+	// A subscription id can be used by another COUNT while the replies to
+	// an earlier one are still pending, so each id has a queue of reply slots.
+	counts map[string][][]*ServerCountMsg
 }
 
 func newMergeHandlerSessionCountState(size int) *mergeHandlerSessionCountState {
 	return &mergeHandlerSessionCountState{
 		size:   size,
-		counts: make(map[string][]*ServerCountMsg),
+		counts: make(map[string][][]*ServerCountMsg),
 	}
 }
 
 func (stat *mergeHandlerSessionCountState) SetSubID(subID string) {
-	stat.counts[subID] = make([]*ServerCountMsg, stat.size)
+	stat.counts[subID] = append(stat.counts[subID], make([]*ServerCountMsg, stat.size))
 }
 
 func (stat *mergeHandlerSessionCountState) SetCountMsg(chIdx int, msg *ServerCountMsg) {
-	counts := stat.counts[msg.SubscriptionID]
-	if len(counts) == 0 {
-		return
+	for _, counts := range stat.counts[msg.SubscriptionID] {
+		if counts[chIdx] == nil {
+			counts[chIdx] = msg
+			return
+		}
 	}
-	counts[chIdx] = msg
 }
 
 func (stat *mergeHandlerSessionCountState) Ready(subID string, chIdx int) bool {
-	counts := stat.counts[subID]
-	if len(counts) == 0 {
+	queue := stat.counts[subID]
+	if len(queue) == 0 {
 		return false
 	}
-	return !slices.Contains(counts, nil)
+	return !slices.Contains(queue[0], nil)
 }
 
 func (stat *mergeHandlerSessionCountState) Msg(subID string) *ServerCountMsg {
 	return slices.MaxFunc(
-		stat.counts[subID],
+		stat.counts[subID][0],
 		func(a, b *ServerCountMsg) int { return cmp.Compare(a.Count, b.Count) },
 	)
 }
 
 func (stat *mergeHandlerSessionCountState) ClearSubID(subID string) {
-	delete(stat.counts, subID)
+	queue := stat.counts[subID]
+	if len(queue) <= 1 {
+		delete(stat.counts, subID)
+		return
+	}
+	stat.counts[subID] = queue[1:]
 }
 
 type Middleware func(Handler) Handler
